@@ -48,12 +48,12 @@ def universes(tier, seed):
     out = [("U1", [("idx", 1, i) for i in range(4)]), ("K", [("k", k) for k in U.kernel()])]
     if tier == "quick":
         out.append(("U2c", [("idx", 2, i) for i in U.U2c_indices()]))
-        out.append((f"F3c[{seed % 64}/64]", [("idx", 3, i) for i in U.shard(U.F3_indices(True), seed, 64)]))
-        out.append((f"MULTI3[{seed % 8}/8]", [("idx", 3, i) for i in U.shard(U.catalogue("multi"), seed, 8)]))
-        out.append((f"NFVS3_multi[{seed % 8}/8]", [("idx", 3, i) for i in U.shard(U.catalogue("nfvs_multi"), seed, 8)]))
-        out.append((f"NFVS3[{seed % 8192}/8192]", [("idx", 3, i) for i in U.shard(U.catalogue("nfvs"), seed, 8192)]))
-        out.append((f"MAA3[{seed % 2048}/2048]", [("idx", 3, i) for i in U.shard(U.catalogue("maa"), seed, 2048)]))
-        out.append((f"MAA3[{seed % 8192}/8192]+input", [("u", ("idx", 3, i), ("idx", 1, 2)) for i in U.shard(U.catalogue("maa"), seed, 8192)]))
+        out.append((f"F3c[{seed % 128}/128]", [("idx", 3, i) for i in U.shard(U.F3_indices(True), seed, 128)]))
+        out.append((f"MULTI3[{seed % 16}/16]", [("idx", 3, i) for i in U.shard(U.catalogue("multi"), seed, 16)]))
+        out.append((f"NFVS3_multi[{seed % 16}/16]", [("idx", 3, i) for i in U.shard(U.catalogue("nfvs_multi"), seed, 16)]))
+        out.append((f"NFVS3[{seed % 16384}/16384]", [("idx", 3, i) for i in U.shard(U.catalogue("nfvs"), seed, 16384)]))
+        out.append((f"MAA3[{seed % 4096}/4096]", [("idx", 3, i) for i in U.shard(U.catalogue("maa"), seed, 4096)]))
+        out.append((f"MAA3[{seed % 16384}/16384]+input", [("u", ("idx", 3, i), ("idx", 1, 2)) for i in U.shard(U.catalogue("maa"), seed, 16384)]))
     else:
         out.append(("U2", [("idx", 2, i) for i in range(256)]))
         out.append((f"F3c[{seed % 64}/64]", [("idx", 3, i) for i in U.shard(U.F3_indices(True), seed, 64)]))
